@@ -9,7 +9,7 @@ def seeded_table():
             "|------|----------|-----------------------|---------------------------|-----------------------|------------------------|"]
     for f in sorted(glob.glob(os.path.join(ROOT, "seeded", "*", "meta.json"))):
         m = json.load(open(f))
-        rows.append("| %s | %s | %s | %s | %s | %s |" % (os.path.basename(os.path.dirname(f)), m.get("property"), m.get("summary", "")[:260].replace("|", "/"),
+        rows.append("| %s | %s | %s | %s | %s | %s |" % (os.path.basename(os.path.dirname(f)), m.get("property"), m.get("summary", "")[:300].replace("|", "/"),
                                                       m.get("needs", "")[:200].replace("|", "/"), m.get("suite", "?"), m.get("caught_by", "?")))
     return "\n".join(rows)
 
